@@ -275,6 +275,54 @@ Example C12_right_angle_flatten_nonvacuous :
                     (10, Rect (2147483650, -3221225479) (2148532228, -3220176896))].
 Proof. exact flatten_nonvacuous. Qed.
 
+(** (10) ANY DEPTH, when the repository computes the sine and cosine of the right angles exactly.
+    [table_exactb] (decidable, Geom/TransformFloat.v) says that every sine and cosine of the
+    regenerated table Gen/LibmGen.v -- read by the harness off the repository's own
+    `Transform::rotate` / `Transform::from_instance` -- is exactly the mathematical value 0, 1 or -1.
+    It is FALSE for `angle.to_radians().sin()` of libm (parts (8), (9) and the drift at depth 62 are
+    about that table) and TRUE once geom.rs treats the multiples of 90 degrees exactly; it is a
+    hypothesis here so that this file builds on both trees, and Geom/TransformFloatExact.v proves
+    it ([table_exact_now], by computation) on a tree that carries the exact table.
+    Then every product and every sum of `cascade` and `Point::transform` is an integer, and the
+    float result is the exact image for chains of ANY depth, as long as the magnitudes stay below
+    2^53 = the integers a double holds exactly. Precisely: every location |lx|, |ly| < 2^53; every
+    offset of the exact cascade along the chain, one per prefix ([offsets_below (2^53) identity_Z zc]);
+    the point |x|, |y| < 2^53; and both coordinates of the exact image < 2^53. *)
+Theorem C12_right_angle_no_drift_any_depth :
+  table_exactb = true ->
+  forall (chain : list fplacement) (zc : list (placement Z)) (x y : Z),
+    Forall (placement_ok (2 ^ 53 - 1)) chain -> zchain_of chain = Some zc ->
+    offsets_below (2 ^ 53) identity_Z zc ->
+    Z.abs x < 2 ^ 53 -> Z.abs y < 2 ^ 53 ->
+    Z.abs (fst (apply_Z (chain_Z identity_Z zc) (x, y))) < 2 ^ 53 ->
+    Z.abs (snd (apply_Z (chain_Z identity_Z zc) (x, y))) < 2 ^ 53 ->
+    exists sp, spec_path_of chain = Some sp /\ chain_image_f chain (x, y) = Some (path_image sp (x, y)).
+Proof. exact chain_image_exact_any_depth. Qed.
+
+(** ... in particular with uniform bounds: locations within [L], point within [X], and
+    (number of placements) * L + X < 2^53. No bound on the depth other than this one on magnitudes. *)
+Theorem C12_right_angle_no_drift_any_depth_uniform :
+  table_exactb = true ->
+  forall (L X : Z) (chain : list fplacement) (x y : Z),
+    0 <= L -> Forall (placement_ok L) chain -> Z.abs x <= X -> Z.abs y <= X ->
+    Z.of_nat (length chain) * L + X < 2 ^ 53 ->
+    exists sp, spec_path_of chain = Some sp /\ chain_image_f chain (x, y) = Some (path_image sp (x, y)).
+Proof. exact chain_image_exact_any_depth_uniform. Qed.
+
+(** ... and the whole of flatten: a hierarchy with [n] levels of instances (any n), placements
+    within [L], shape points within [X], n * L + X < 2^53. *)
+Theorem C12_right_angle_flatten_no_drift_any_depth :
+  table_exactb = true ->
+  forall (n : nat) (L X : Z) (l : layout fplacement (Z * Z)),
+    0 <= L -> 0 <= X -> Z.of_nat n * L + X < 2 ^ 53 -> layout_ok L X l n ->
+    exists zl, zlayout_of l = Some zl /\ flatten_f l = flatten_K ZR zl /\
+      flatten_f l =
+      match paths zl with
+      | Some ps => Ok (map (fun pe => elem_map (path_map ZR (fst pe)) (snd pe)) ps)
+      | None => Panic
+      end.
+Proof. exact flatten_f_exact_any_depth. Qed.
+
 Print Assumptions C12_cascade_apply.
 Print Assumptions C12_cascade_assoc.
 Print Assumptions C12_elementary_maps.
@@ -295,3 +343,6 @@ Print Assumptions C12_right_angle_chain_no_drift_depth1024.
 Print Assumptions C12_right_angle_chain_float_is_ring.
 Print Assumptions C12_right_angle_drift_at_depth_62.
 Print Assumptions C12_right_angle_flatten_no_drift.
+Print Assumptions C12_right_angle_no_drift_any_depth.
+Print Assumptions C12_right_angle_no_drift_any_depth_uniform.
+Print Assumptions C12_right_angle_flatten_no_drift_any_depth.
